@@ -4,6 +4,7 @@ import (
 	"encoding/json"
 	"fmt"
 	"os"
+	"strings"
 	"time"
 
 	"verif/harness/mon"
@@ -62,6 +63,10 @@ func syncScenarios(r *mon.Run, label string) []Scenario {
 func runSyncCheck(prop, monitor, tier, replay string) int {
 	r := mon.NewRun(prop, "exploration", tier)
 	var scs []Scenario
+	if replay != "" && isCacheSessionReplay(replay) {
+		runCacheLevelSync(r, monitor, replay)
+		return r.Finish("replay of one cache-level session", 0, nil)
+	}
 	if replay != "" {
 		var rep struct {
 			Case Scenario `json:"case"`
@@ -135,14 +140,100 @@ func runSyncCheck(prop, monitor, tier, replay string) int {
 			r.Sample(map[string]any{"scenario": sc, "observed": map[string]any{"shape": res.Shape, "pulls": res.Pulls, "quiescent": res.Quiescent, "pair_states": res.PairStates}})
 		}
 	}
+	if replay == "" {
+		runCacheLevelSync(r, monitor, "")
+	}
 	rule := "fixed catalogue of fork shapes (branch lengths a,b since the fork x 4 exchange variants x origin/peer remotes) plus seeded random schedules of {new, edit (1..4 ops, any kind, any local author), push, pull, fetch, merge, identity mutation} on 2..3 replicas; "
 	if monitor == "converge" {
 		rule += "non-trivial = quiescence reached and at least one merge commit was created; distinct = distinct shape signature (replicas, authors, peers, #merge-commit merges, #fast-forwards, branch-length multiset, max merge commits per bug, max pack size, clock ties)"
 	} else {
 		rule += "non-trivial = at least one pull that created, fast-forwarded or merged an entity; distinct = distinct shape signature as for C01; every pull is checked by the three-snapshot monitor"
 	}
+	rule += "; plus cache-level sessions (two long-lived RepoCache instances sharing a remote: edits through BugCache, RepoCache.Fetch/Pull/MergeAll/Push, pulls into loaded bugs and with staged operations, eviction, reopen) judged by the same oracle on what the cache serves"
 	return r.Finish(rule, 10, []string{
 		"op-id sets and DAG facts come from the independent gitraw reader over repository.RepoData primitives",
 		"all remote data in these worlds is produced by git-bug's own editing API, hence valid",
 	})
+}
+
+func isCacheSessionReplay(path string) bool {
+	var rep struct {
+		Case map[string]json.RawMessage `json:"case"`
+	}
+	data, err := os.ReadFile(path)
+	if err != nil || json.Unmarshal(data, &rep) != nil {
+		return false
+	}
+	_, isScenario := rep.Case["replicas"]
+	return !isScenario
+}
+
+// runCacheLevelSync runs the cache-level sessions of C11's generator and keeps the findings of this property's
+// oracle: for C02 what a returned pull must have integrated (git data and served bugs, and that a later edit builds
+// on it), for C01 that two long-lived caches serve the same bugs at quiescence.
+func runCacheLevelSync(r *mon.Run, monitor, replay string) {
+	var sessions []CacheSession
+	if replay != "" {
+		var rep struct {
+			Case CacheSession `json:"case"`
+		}
+		data, err := os.ReadFile(replay)
+		if err == nil {
+			err = json.Unmarshal(data, &rep)
+		}
+		if err != nil {
+			fmt.Println("cannot read replay:", err)
+			return
+		}
+		sessions = []CacheSession{rep.Case}
+	} else {
+		sessions = c11Targeted()
+		n := r.Pick(16, 200)
+		for i := 0; i < n; i++ {
+			rng := mon.Rng(r.Seed, "cache-sync", i)
+			sessions = append(sessions, c11Session(rng, r.Pick(30, 45), fmt.Sprintf("cache-sync-%d", i)))
+		}
+	}
+	mine := func(key string) bool {
+		if monitor == "converge" {
+			return strings.HasPrefix(key, "cacheconverge:")
+		}
+		return strings.HasPrefix(key, "cachepull:") || strings.HasPrefix(key, "edit-after-pull-not-on-merged-head")
+	}
+	outs := runBatches[CacheSession, CacheSessionResult]("", "cachesession", sessions, 2, 120*time.Second, nil)
+	for i, oc := range outs {
+		s := sessions[i]
+		if oc.Crashed {
+			r.Case("cache-session-crash", false)
+			r.Violation("crash:"+siteFn(oc.Site), "process died during cache-level session "+s.Name+":\n"+oc.Excerpt, s)
+			continue
+		}
+		if oc.Result == nil || oc.Result.Harness != "" && len(oc.Result.Findings) == 0 {
+			r.Case("cache-session-unfinished", false)
+			r.Inconclusive("cache-level session " + s.Name + " did not finish")
+			continue
+		}
+		res := oc.Result
+		checked := res.PullsChecked
+		if monitor == "converge" {
+			checked = res.SyncsChecked
+		}
+		r.Case("cache-level:"+res.Shape, checked > 0)
+		r.Count("cache_level/pulls_checked", res.PullsChecked)
+		r.Count("cache_level/quiescent_convergence_checks", res.SyncsChecked)
+		for k, v := range res.PullStatuses {
+			r.Count("cache_level/merge_status/"+k, v)
+		}
+		if replay != "" {
+			fmt.Printf("replay %s: %+v\n", s.Name, res)
+		}
+		for _, f := range res.Findings {
+			parts := strings.SplitN(f, "|", 2)
+			if !mine(parts[0]) {
+				r.Count("cache_level/findings_of_other_monitors", 1)
+				continue
+			}
+			r.Violation(parts[0], parts[1]+" [cache-level session "+s.Name+"]", s)
+		}
+	}
 }
